@@ -6,6 +6,7 @@ from hypothesis import strategies as st
 
 from props.c03_balance import classes_of
 from vlib import stockgen as sg
+from vlib.build import fd
 from vlib.runner import Discard, Facet, Prop, Violation, require
 
 
@@ -129,6 +130,61 @@ class RoundTrip(Facet):
         return run_case(desc)
 
 
+# ------------------------------------------------------------------------------ large models
+
+
+class Large(Facet):
+    """A short exhaustive list of LARGE models (survival tables of 6 ... 130 MiB, item counts that are prime or odd):
+    size thresholds of blocked / batched solvers are out of reach of the small generated configurations."""
+
+    name = "large"
+    exhaustive = True
+    shards = {"quick": 4, "thorough": 8}
+
+    def enumerate(self, tier):
+        sizes = [(40, [467]), (80, [9, 73]), (200, [211])] if tier == "quick" else [
+            (40, [467]), (80, [9, 73]), (200, [211]), (60, [7, 11, 13]), (128, [1031]), (300, [37]), (25, [10007]), (90, [3, 5, 127]), (500, [53])]
+        for n_t, extra in sizes:
+            for uneven in (False, True):
+                yield {"n_t": n_t, "extra": extra, "uneven": uneven}
+
+    def run(self, desc):
+        n_t, extra = desc["n_t"], list(desc["extra"])
+        years = [2000 + i for i in range(n_t)]
+        if desc["uneven"]:
+            years = [2000 + i + (i // 7) for i in range(n_t)]  # a gap after every seventh year
+        dl = [fd.Dimension(letter="t", name="Time", items=years, dtype=int)]
+        for k, n in enumerate(extra):
+            dl.append(fd.Dimension(letter="abc"[k], name=["Alpha", "Beta dim", "Gamma"][k], items=[f"{'abc'[k]}{i}" for i in range(n)]))
+        dims = fd.DimensionSet(dim_list=dl)
+        shape = tuple(dims.shape)
+        n_items = int(np.prod(shape[1:]))
+        idx = np.arange(n_items).reshape(shape[1:])
+        mean = fd.FlodymArray(dims=dims.get_subset(tuple(d.letter for d in dl[1:])), values=6.0 + (idx % 11) * 0.7)
+        std = fd.FlodymArray(dims=mean.dims, values=1.5 + (idx % 5) * 0.3)
+        tt = np.arange(n_t).reshape((n_t,) + (1,) * len(extra))
+        inflow = 1.0 + ((tt * 7 + idx[None, ...] * 13) % 17) + 0.25 * np.sin(tt + idx[None, ...])
+        lm = lambda: fd.LogNormalLifetime(dims=dims, mean=mean, std=std)
+        a = fd.InflowDrivenDSM(dims=dims, inflow=fd.StockArray(dims=dims, values=inflow.copy()), lifetime_model=lm(), name="s")
+        a.compute()
+        res = {}
+        for solver in ("manual", "lapack"):
+            b = fd.StockDrivenDSM(dims=dims, stock=fd.StockArray(dims=dims, values=np.array(a.stock.values)), lifetime_model=lm(), solver=solver, name="s")
+            b.compute()
+            res[solver] = b
+            scale = float(np.max(np.abs(inflow)))
+            d = float(np.max(np.abs(b.inflow.values - inflow)))
+            require(d <= 1e-8 * scale, "large-roundtrip-inflow", f"{solver}: recovered inflow deviates by {d:.3g} (n_t {n_t}, items {extra}, survival table {n_t * n_t * n_items * 8 / 2**20:.0f} MiB)")
+            d = float(np.max(np.abs(b.outflow.values - a.outflow.values)))
+            require(d <= 1e-8 * scale, "large-roundtrip-outflow", f"{solver}: outflow deviates by {d:.3g} (n_t {n_t}, items {extra})")
+            d = float(np.max(np.abs(b.get_stock_by_cohort().sum(axis=1) - a.stock.values)))
+            require(d <= 1e-8 * float(np.max(np.abs(a.stock.values))), "large-cohorts-do-not-add-up", f"{solver}: {d:.3g}")
+        d = float(np.max(np.abs(res["manual"].inflow.values - res["lapack"].inflow.values)))
+        require(d <= 1e-8 * scale, "large-solvers-disagree", f"inflow differs by {d:.3g} (n_t {n_t}, items {extra})")
+        mib = n_t * n_t * n_items * 8 / 2**20
+        return {"nontrivial": True, "classes": [f"survival-table:{'<16' if mib < 16 else '<64' if mib < 64 else '>=64'}MiB", "uneven" if desc["uneven"] else "unit"]}
+
+
 Prop(
     "C10",
     "exploration",
@@ -136,7 +192,9 @@ Prop(
     "stock into a stock-driven model (both solvers) with the same lifetime model; inflow, outflow and both cohort tables must "
     "match. backward: arbitrary stock (also implying negative inflow) -> stock-driven model (manual and lapack must agree) -> "
     "its inflow into an inflow-driven model; stock, outflow and cohort tables must match. Tolerance (64 eps cond_inf(sf) + 1e-11) "
-    "x magnitude. Non-trivial = non-unit grid, per-label/per-cohort parameters, or a stock implying negative inflow.",
-    [RoundTrip()],
+    "x magnitude. Non-trivial = non-unit grid, per-label/per-cohort parameters, or a stock implying negative inflow. "
+    "large: a short exhaustive list of big models (survival tables of 6-130 MiB, prime / odd item counts, unit and uneven grids): "
+    "inflow-driven -> stock-driven with both solvers, inflow / outflow recovered to 1e-8, solvers agree.",
+    [RoundTrip(), Large()],
     assumptions=["cases with first-interval survival < 0.05 or cond_inf(sf) > 1e8 are discarded (counted): the property excludes vanishing diagonals"],
 )
